@@ -5,7 +5,7 @@
    dot, is not dot-dot and has no slash; resolve = textbook stack resolution (dot-dot pops, never above the root);
    handle = http_api.cpp path pipeline (cut at the question mark, urldecode, C string) followed by
    file_server::main, over abstract OS functions canonical (realpath), file_mode (stat), dir_entries, can_open. *)
-From CppcmsV Require Import Base.Tac Base.CSem Base.Sweep C15.Defs C13.Defs C13.ProofsNorm C13.ProofsRoot C13.ProofsMain C13.ProofsIp C13.Link gen.Gen_fileserver.
+From CppcmsV Require Import Base.Tac Base.CSem Base.Sweep C15.Defs C13.Defs C13.ProofsNorm C13.ProofsRoot C13.ProofsMain C13.ProofsIp C13.PageDefs C13.ProofsList C13.ProofsRedir C13.ProofsReal C13.Link gen.Gen_fileserver.
 Local Open Scope N_scope.
 
 (* 1. normalize_safe: for EVERY byte string the result of file_server::normalize_path is slash-rooted, consists of
@@ -103,6 +103,25 @@ Theorem model_checked_path_is_link_free : forall fs cfg f real,
 Proof. exact fs_checked_path_link_free. Qed.
 Print Assumptions model_checked_path_is_link_free.
 
+(* 5b. the name-space model (fs_realpath: relative and absolute link targets, dot-dot through links, ENOTDIR, dangling
+       links, at most MAXSYMLINKS = 40 links per resolution then ELOOP - also on cycle-free chains) for EVERY finite name
+       space, i.e. every symbolic-link graph: realpath is idempotent (its result is link-free, so it is its own real path) *)
+Theorem realpath_model_idempotent : forall fs x r, fs_realpath fs x = Some r -> fs_realpath fs r = Some r.
+Proof. exact fs_realpath_idempotent. Qed.
+Print Assumptions realpath_model_idempotent.
+(* with check_symlink on and roots that are canonical() outputs (roots_real: what the constructor stores), every streamed
+   file p satisfies: realpath p = p (all links followed, none left), the root in force is its own real path, and p has that
+   root as a COMPONENT-WISE prefix - for every name space, every alias table and every request target *)
+Theorem model_served_file_under_real_root : forall fs cfg target p e,
+  roots_real fs cfg -> check_symlinks cfg = true ->
+  fs_handle fs cfg target = RFile p e ->
+  exists root rcs below res,
+    root_in_force cfg root /\ fs_realpath fs root = Some root /\ root = render rcs /\
+    p = render (rcs ++ below) /\ Forall good (rcs ++ below) /\
+    fs_realpath fs p = Some p /\ p = render (rev res) /\ real_node fs res.
+Proof. exact model_served_under_real_root. Qed.
+Print Assumptions model_served_file_under_real_root.
+
 (* 6. main decision tree, end to end from the raw request target: a file is streamed only if it is S_IFREG and
       its path came out of check_in_document_root (for the request path or for path/index), hence is contained
       as in 4/5; a directory is opened for listing only if listing is enabled and likewise contained *)
@@ -115,7 +134,7 @@ Proof. exact main_serves. Qed.
 Print Assumptions main_streams_only_checked_regular_files.
 Theorem main_redirects_only_for_checked_directories : forall canonical file_mode dir_entries can_open cfg f loc,
   fs_main canonical file_mode dir_entries can_open cfg f = RRedirect loc ->
-  loc = f ++ [slash] /\ last f 0 <> slash /\
+  loc = safe_location f /\ last f 0 <> slash /\
   exists path, check_in_document_root canonical cfg f = Some path /\ has_bit (file_mode (cstr path)) S_IFDIR = true.
 Proof. exact main_redirects. Qed.
 Print Assumptions main_redirects_only_for_checked_directories.
@@ -202,6 +221,141 @@ Proof.
   repeat split; try (vm_compute; reflexivity).
   intros root [H|[]]. exists [[114]]. split. exact H. repeat constructor.
 Qed.
+
+(* chain of 41 links k0 -> k1 -> ... -> k40 -> f : from k1 on (40 links) it resolves, from k0 (41 links) it is ELOOP *)
+Definition chain_fs : fsdesc :=
+  (rev [47;102], NReg 7) ::
+  map (fun i => (rev [47;107;N.of_nat i], NLink (if (i =? 40)%nat then [102] else [107; N.of_nat (S i)]))) (seq 0 41).
+Example realpath_model_nonvacuous :
+  fs_realpath chain_fs [47;107;1] = Some [47;102] /\ fs_realpath chain_fs [47;107;0] = None /\
+  fs_realpath chain_fs [47;102] = Some [47;102] /\
+  fs_realpath ex_fs [47;114;47;108;47;115] = Some [47;111;47;115] /\           (* /r/l/s -> /o/s through the link l *)
+  roots_real ex_fs (ex_cfg true).
+Proof.
+  split. vm_compute; reflexivity. split. vm_compute; reflexivity. split. vm_compute; reflexivity.
+  split. vm_compute; reflexivity.
+  intros root [H|[]]. exists [47;114]. rewrite H. vm_compute. reflexivity.
+Qed.
+
+(* 7b. the listing PAGE (PageDefs.v: the literals of list_dir in the order they are written, data = title, href, text, date,
+       size, version).  skeleton = the bytes < > double-quote single-quote of a string, in order.  Whatever the request
+       path and whatever byte strings the directory holds as names (hypothesis: entries are byte strings; date, size and
+       version strings carry no markup byte), the skeleton of the page is the one the page grammar gives for (parent row
+       present?, kind of each row): no name and no part of the request path contributes a structural byte; and there is no
+       page at all unless listing is enabled *)
+Theorem listing_page_markup_is_fixed : forall canonical file_mode dir_entries can_open cfg f title parent rows ver date_of size_of,
+  (forall p names, dir_entries p = Some names -> Forall bytes_ok names) ->
+  mf ver -> (forall r, mf (date_of r)) -> (forall r, mf (size_of r)) ->
+  fs_main canonical file_mode dir_entries can_open cfg f = RListing title parent rows ->
+  listing cfg = true /\
+  skeleton (listing_html ver date_of size_of title parent rows) = sk_page parent (map row_is_dir rows).
+Proof. exact listing_page_markup_fixed. Qed.
+Print Assumptions listing_page_markup_is_fixed.
+(* an HTML tokenizer that reads the attribute value up to the closing single quote and the text up to the next < gets
+   exactly href and text of the row back ... *)
+Theorem listing_row_tokenizes : forall date_of size_of r, mf (fst r) -> mf (snd r) ->
+  exists t1 t2, row_html date_of size_of r = pg_row0 ++ fst r ++ 39 :: t1 /\
+    take_until 39 (fst r ++ 39 :: t1) = (fst r, 39 :: t1) /\
+    t1 = 62 :: snd r ++ 60 :: t2 /\ take_until 60 (snd r ++ 60 :: t2) = (snd r, 60 :: t2).
+Proof. exact row_tokenizes. Qed.
+Print Assumptions listing_row_tokenizes.
+(* ... and both decode (URL-decoding resp. entity decoding) to the same directory entry, which is not a dot name; the href
+   consists of unreserved bytes, percent signs and slashes only (so it cannot end the attribute or open a tag) *)
+Theorem listing_row_names_entry : forall file_mode path names h tx,
+  Forall bytes_ok names -> In (h, tx) (list_rows file_mode path names) ->
+  exists name add, In name names /\ starts_with_dot name = false /\ (add = [] \/ add = [slash]) /\
+    urldecode h = name ++ add /\ unescape tx = name ++ add.
+Proof. exact row_names_entry. Qed.
+Print Assumptions listing_row_names_entry.
+Theorem listing_href_alphabet : forall file_mode path names h tx,
+  Forall bytes_ok names -> In (h, tx) (list_rows file_mode path names) -> forallb loc_alphabet h = true.
+Proof. exact list_rows_href_loc_alphabet. Qed.
+Print Assumptions listing_href_alphabet.
+Example listing_page_nonvacuous :
+  let page := listing_page [47;100;47] true [([120;37;51;99;121], [120;38;108;116;59;121])] in     (* the listing of /d/ of ex_fs *)
+  fs_handle ex_fs (ex_cfg true) [47;100;47] = RListing [47;100;47] true [([120;37;51;99;121], [120;38;108;116;59;121])] /\
+  skeleton page = sk_page true [false] /\ length (skeleton page) = 128%nat.
+Proof. cbv zeta. repeat split; vm_compute; reflexivity. Qed.
+
+(* 7c. the directory redirect (code as repaired by a6ff7cd).  For every request the Location value is safe_location of
+       PATH_INFO: the NORMAL form of the decoded request path, every byte except the slash percent-encoded as util::urlencode
+       does, plus a slash unless that is the root *)
+Theorem redirect_location_is_encoded_normal_form : forall canonical file_mode dir_entries can_open cfg target loc,
+  handle canonical file_mode dir_entries can_open cfg target = RRedirect loc ->
+  loc = safe_location (path_info target) /\ last (path_info target) 0 <> slash /\
+  exists path, check_in_document_root canonical cfg (path_info target) = Some path /\
+               has_bit (file_mode (cstr path)) S_IFDIR = true.
+Proof. exact handle_redirect_location. Qed.
+Print Assumptions redirect_location_is_encoded_normal_form.
+(* hence, for EVERY request target (byte string) that main answers with a redirect: the Location consists of unreserved bytes,
+   percent signs and slashes only - one header line (ctl_free), no quote, no markup; it stays on this site (on_site: one
+   slash, then neither a slash nor a backslash); and a client following it reaches, after the decoding step, the same normal
+   form, i.e. the same directory under the same root.  (Before a6ff7cd the first three were refuted by the model.) *)
+Theorem redirect_is_one_line_on_site_same_directory : forall canonical file_mode dir_entries can_open cfg target loc,
+  bytes_ok target ->
+  handle canonical file_mode dir_entries can_open cfg target = RRedirect loc ->
+  forallb loc_alphabet loc = true /\ ctl_free loc = true /\ on_site loc = true /\
+  normalize (urldecode loc) = normalize (path_info target).
+Proof. exact handle_redirect_clean. Qed.
+Print Assumptions redirect_is_one_line_on_site_same_directory.
+(* the same three facts for safe_location on any path (main called directly) *)
+Theorem location_single_line : forall f, bytes_ok f ->
+  forallb loc_alphabet (safe_location f) = true /\ ctl_free (safe_location f) = true.
+Proof. exact safe_location_single_line. Qed.
+Print Assumptions location_single_line.
+Theorem location_on_site : forall f, bytes_ok f -> on_site (safe_location f) = true.
+Proof. exact safe_location_on_site. Qed.
+Print Assumptions location_on_site.
+Theorem location_same_directory : forall f, bytes_ok f -> nonul f = true ->
+  normalize (urldecode (safe_location f)) = normalize f.
+Proof. exact safe_location_same_directory. Qed.
+Print Assumptions location_same_directory.
+(* regression Examples: the three witnesses of the repaired defect now evaluate to a one-line on-site Location
+   GET //h/%2e%2e -> Location: /     GET /d/%0d%0aX:y/.. -> Location: /d/     and an un-normalised path  /d/.//%2e -> /d/ ;
+   a directory name that needs encoding:  safe_location of  /m/?d  is  /m/%3fd/ *)
+Example redirect_regression :
+  fs_handle rd_fs rd_cfg [47;47;104;47;37;50;101;37;50;101] = RRedirect [47] /\
+  fs_handle rd_fs rd_cfg [47;100;47;37;48;100;37;48;97;88;58;121;47;46;46] = RRedirect [47;100;47] /\
+  fs_handle rd_fs rd_cfg [47;100;47;46;47;47;37;50;101] = RRedirect [47;100;47] /\
+  safe_location [47;109;47;63;100] = [47;109;47;37;51;102;100;47] /\
+  on_site [47;47;104;47;46;46;47] = false /\ ctl_free [47;100;47;13;10;88;58;121;47;46;46;47] = false.   (* the old values fail both tests *)
+Proof. repeat split; vm_compute; reflexivity. Qed.
+
+(* 7d. percent-decoding and normalisation compose in the safe order: ONE decoding step (http_api.cpp), then normalisation
+       (file server), then alias selection and the root check - theorems 6 are stated from the raw target.  Encoding is
+       transparent: the target that spells f with any bytes percent-encoded as util::urlencode does (slashes kept) is handled
+       exactly as main handles f; the path that reaches normalize_path is urldecode of the target, whatever the decoded
+       bytes themselves spell (a double-encoded dot-dot stays the literal component %2e%2e) *)
+Theorem encoded_request_is_decoded_request : forall canonical file_mode dir_entries can_open cfg f,
+  bytes_ok f -> nonul f = true ->
+  handle canonical file_mode dir_entries can_open cfg (encode_path f) = fs_main canonical file_mode dir_entries can_open cfg f.
+Proof. exact encoded_request_equals_decoded. Qed.
+Print Assumptions encoded_request_is_decoded_request.
+Theorem pipeline_decodes_exactly_once : forall target, nonul (urldecode (cut_query target)) = true ->
+  path_info target = urldecode (cut_query target).
+Proof. exact pipeline_decodes_once. Qed.
+Print Assumptions pipeline_decodes_exactly_once.
+Example pipeline_nonvacuous :
+  path_info [47;37;50;53;50;101;37;50;53;50;101;47;111;47;115] = [47;37;50;101;37;50;101;47;111;47;115] /\  (* /%252e%252e/o/s -> /%2e%2e/o/s *)
+  fs_handle ex_fs (ex_cfg false) [47;37;50;53;50;101;37;50;53;50;101;47;111;47;115] = R404 /\             (* a component named %2e%2e: 404 *)
+  fs_handle ex_fs (ex_cfg true) [47;100;37;50;102;46;46;37;50;70;102] = RFile [47;114;47;102] [] /\      (* /d%2f..%2Ff  = /d/../f -> /r/f *)
+  fs_handle ex_fs (ex_cfg false) [47;102;37;48;48;47;46;46;47;46;46;47;111;47;115] = RFile [47;114;47;102] [] /\ (* /f%00/../../o/s: C string *)
+  (* the other order would escape: decoding AFTER normalisation turns the safe component %2e%2e into dot-dot *)
+  urldecode (normalize [47;37;50;101;37;50;101;47;111;47;115]) = [47;46;46;47;111;47;115].
+Proof. repeat split; vm_compute; reflexivity. Qed.
+
+(* 7e. MIME selection: the key looked up in the MIME table for a streamed file p is the suffix of p (the path that went through
+       check_in_document_root) from its LAST dot on, over the whole path as path.rfind does; empty when p has no dot *)
+Theorem mime_key_is_suffix_from_last_dot : forall canonical file_mode dir_entries can_open cfg f p e,
+  fs_main canonical file_mode dir_entries can_open cfg f = RFile p e ->
+  (e = [] /\ ~ In dot p) \/ (exists pre x, p = pre ++ dot :: x /\ e = dot :: x /\ ~ In dot x).
+Proof. exact mime_key_spec. Qed.
+Print Assumptions mime_key_is_suffix_from_last_dot.
+Example mime_key_nonvacuous :
+  ext_of [47;114;47;102;46;116;120;116] = [46;116;120;116] /\            (* /r/f.txt -> .txt *)
+  ext_of [47;118;49;46;50;47;110;111;101;120;116] = [46;50;47;110;111;101;120;116] /\   (* /v1.2/noext -> .2/noext : no table key has a slash *)
+  ext_of [47;114;47;102] = [].
+Proof. repeat split; vm_compute; reflexivity. Qed.
 
 (* 8. tie: the separator test regenerated from the current source is the model's (c =? slash) *)
 Theorem tie_is_directory_separator : forall b, b < 256 -> g_is_directory_separator (wraps 8 (Z.of_N b)) = (b =? slash).
